@@ -158,3 +158,17 @@ def unstructured(rng):
     if rng.random() < 0.5 and total:
         spec['mut'] = [['sig', nm] for nm in rng.sample(sorted(ig.SIG_PUT), rng.choice([1, 2]))]
     return spec
+
+
+def vhdx_backward(rng):
+    """A VHDX whose pointer chain refers backwards (metadata region inside the headers, or the size item inside the
+    metadata entry table): refused by the inspector; the refusal must not depend on the chunking."""
+    n_pad_meta = rng.choice([0, 1, 3, 20])
+    p = dict(size=size_pool(rng), n_pad_meta=n_pad_meta, tail=rng.choice([0, 100, 5000]))
+    if rng.random() < 0.5:
+        p['meta_off'] = rng.choice([0, 32, 100, 64 * KI, 192 * KI, 192 * KI + 16, 200 * KI, 256 * KI - 1, 256 * KI - 32])
+        p['item_off'] = rng.choice([0x10000, 32 * (n_pad_meta + 2)])
+    else:
+        p['meta_off'] = rng.choice([256 * KI, 300 * KI, MI])
+        p['item_off'] = rng.choice([0, 8, 31, 32, 40, 32 * (n_pad_meta + 2) - 1, 32 * (n_pad_meta + 1)])
+    return {'gen': 'vhdx', 'params': p}
